@@ -3,7 +3,7 @@
    The theorems are about the protocol model model/Couch.v: the client follows couchdb.py, the server
    follows CouchDB's documented MVCC rules (the specification assumed; a real server is not exercised). *)
 From Coq Require Import List String Arith Bool.
-From Basyx Require Import model.Couch proofs.CouchProofs.
+From Basyx Require Import model.Files model.Couch proofs.CouchProofs.
 Import ListNotations.
 Local Open Scope string_scope.
 
@@ -84,6 +84,13 @@ Theorem C16_lookup_missing : forall c sv cl i, legal i = true -> live sv i = Non
   step c None (mkWorld sv cl) (GetId i) = (mkWorld sv cl, OErr XKey, 1).
 Proof. exact get_missing. Qed.
 
+(* ... and so do membership and len, in ANY state. *)
+Theorem C16_membership : forall c w i, legal i = true ->
+  step c None w (ContainsId i) = (w, OBool (match absmap w i with Some _ => true | None => false end), 1).
+Proof. exact contains_ok. Qed.
+Theorem C16_len : forall c w, step c None w Len = (w, ONat (List.length (live_ids (w_sv w))), 1).
+Proof. exact len_ok. Qed.
+
 (* Faults: if any request of any operation, in any state, is answered with a non-2xx status and a
    CouchDB error document, with a 200 whose body is not JSON, or not at all, then the server state is
    unchanged and the operation ends in KeyError / CouchDBConnectionError / CouchDBResponseError /
@@ -104,11 +111,16 @@ Theorem C16_unquote_quote : forall s, unquote (quote s) = s.
 Proof. exact unquote_quote. Qed.
 Theorem C16_quote_inj : forall a b, quote a = quote b -> a = b.
 Proof. exact quote_inj. Qed.
+(* the document name actually used (_transform_id: quote, with "." and ".." percent-encoded) *)
+Theorem C16_unquote_transform : forall s, unquote (transform_id s) = s.
+Proof. exact unquote_transform. Qed.
+Theorem C16_transform_inj : forall a b, transform_id a = transform_id b -> a = b.
+Proof. exact transform_inj. Qed.
 Theorem C16_doc_url_inj : forall c i j, doc_url c i = doc_url c j -> i = j.
 Proof. exact doc_url_inj. Qed.
 Theorem C16_key_agreement : forall c i, parse_source (generate_source c i) = Some (doc_url c i).
 Proof. exact source_roundtrip. Qed.
-Theorem C16_routing : forall c i, legal i = true -> url_target c (doc_url c i) = TDoc (quote i).
+Theorem C16_routing : forall c i, legal i = true -> url_target c (doc_url c i) = TDoc (transform_id i).
 Proof. exact route_doc. Qed.
 
 (* ... and the excluded class is real: an identifier starting with an underscore cannot be stored
